@@ -16,7 +16,7 @@ from mc.report import Report
 
 LEVEL = "model_checking"
 RULE = ("BFS from every start object (class in {BaseSamples, Samples, SMCSamples} x {numpy,torch,jax} x {float32,float64} x "
-        "8 subsets of the optional fields x parameter names stored in non-lexicographic order (b, a) [and (a, b) for numpy], 4 tagged rows) over the action alphabet {int index 0/-1, 3 slices, 2 boolean masks, "
+        "8 subsets of the optional fields x parameter names stored in non-lexicographic order (b, a) [and (a, b) for numpy], 4 tagged rows) over the action alphabet {int index 0/-1, 3 slices, 2 boolean masks (also one written as a Python list), "
         "2 index arrays (reversal, repeats), partition at each cut + concatenate (also with one piece pickled / dict-converted in between), pickle round trip, to_dict->from_dict flat/"
         "nested/flat without copying} to depth 3 (quick) / 4 (thorough); abstract state = (class, namespace, dtype, row-tag tuple, field presence, "
         "evidence tag); every transition is executed on the implementation and the resulting object compared with the "
@@ -91,10 +91,15 @@ def select_index(name, n):
         return np.arange(n)[::-1].copy()
     if name == "idx-rep":
         return np.array([0, 0, n - 1])
+    if name == "mask-pylist":  # a mask written as a plain Python list of bools
+        return [j % 2 == 0 for j in range(n)]
+    if name == "idx-pylist":
+        return [n - 1, 0]
     raise ValueError(name)
 
 
-SELECTS = ["int0", "int-1", "s1:", "s:-1", "s::2", "mask-alt", "mask-last2", "idx-rev", "idx-rep"]
+SELECTS = ["int0", "int-1", "s1:", "s:-1", "s::2", "mask-alt", "mask-last2", "idx-rev", "idx-rep", "mask-pylist", "idx-pylist"]
+PYLIST = ("mask-pylist", "idx-pylist")  # JAX itself refuses list indices, so these are offered for numpy and torch only
 
 
 def enabled(model):
@@ -103,6 +108,8 @@ def enabled(model):
     n = len(model.tags)
     acts = []
     for name in SELECTS:
+        if name in PYLIST and model.ns == "jax":
+            continue
         idx = select_index(name, n)
         res = np.arange(n)[idx]
         if np.ndim(res) == 0 or len(res) >= 1:
